@@ -155,6 +155,7 @@ pub fn payload_decodable(m: &HandlerSpec, payload: &[u8]) -> bool {
         ["u128", "i128", "Script"] => from_json::<(u128, i128, rt::script::Script)>(payload).is_ok(),
         ["u128"] => from_json::<u128>(payload).is_ok(),
         ["Nil"] => from_json::<rt::types::Nil>(payload).is_ok(),
+        ["Vec<Vec<u32>>"] => from_json::<Vec<Vec<u32>>>(payload).is_ok(),
         _ => false,
     }
 }
